@@ -25,6 +25,7 @@ import Drv.Util
 import Nq.Bounce
 import Nq.Spec.BounceSpec
 import Nq.BounceDaemon
+import Nq.BounceQq
 import Nq.Rewrite
 
 open Nq Nq.Bounce Nq.BounceSpec Nq.BounceDaemon Drv
@@ -265,6 +266,31 @@ def handleD (o : Out) (blobh : String) (blob appended : Bytes) : Out := Id.run d
   else if appended != ABSENT then o := o.ora s!"in={blobh} kind=D why=bounce-recorded-without-permanent-failure text={hex appended}"
   return o
 
+/-- D leg, write-ahead order (session 4): the failure record is written before the recipient is marked done.  `ord` = the order of
+the real writes ('a' to bounce/<id>, 'M' to the channel file), `mk` = first byte of the channel record afterwards.  DISAGREE against
+`BounceQq.delOrder`; ORACLE (independent of the model): for a permanent failure (status D, or Z on a dying message) every write to
+bounce/<id> comes before the first write of the mark, and the mark is made. -/
+def orderD (o : Out) (blobh : String) (blob appended : Bytes) (ord mk : String) : Out := Id.run do
+  let fs := splitNul blob
+  let dying := (fld fs 0).head? == some 49
+  let raw := fld fs 2
+  let evs : List BounceQq.DelEv := (if ord == "-" then [] else ord.toList).map (fun c => if c == 'a' then .record else .mark)
+  let mut o := o
+  if evs != BounceQq.delOrder dying raw then
+    o := o.dis s!"in={blobh} kind=D what=order-of-record-and-mark impl={ord} model={(BounceQq.delOrder dying raw).map (fun e => if e == .record then "a" else "M")}"
+  let st := raw.head?
+  let want := st == some 68 || (st == some 90 && dying)
+  if want then
+    o := { o with st := o.st.bump "D_record_then_mark_checked" }
+    if !BounceQq.recordBeforeMark evs then
+      o := o.ora s!"in={blobh} kind=D why=recipient-marked-done-before-its-failure-record-was-written order={ord} legend=a:write-to-bounce-file,M:write-of-the-done-mark"
+    else if mk != "D" || appended == ABSENT then
+      o := o.ora s!"in={blobh} kind=D why=permanent-failure-not-recorded-and-marked mark={mk}"
+  else if st == some 75 then
+    if mk != "D" then o := o.ora s!"in={blobh} kind=D why=delivered-recipient-not-marked-done mark={mk}"
+  else if mk != "T" then o := o.ora s!"in={blobh} kind=D why=recipient-marked-done-without-success-or-permanent-failure mark={mk}"
+  return o
+
 def handleI (o : Out) (id : Nat) (blobh : String) (blob : Bytes) (bfile : Option Bytes)
     (ret q : Bool) (f : Bytes) (t : List Bytes) (body : Bytes) (left : Bool) (log : Bytes)
     (ret2 q2 : Bool) (f2 : Bytes) (t2 : List Bytes) (body2 : Option Bytes) (left2 : Bool) (routes : List (Bool × Bytes)) : Out := Id.run do
@@ -354,20 +380,38 @@ def handleI (o : Out) (id : Nat) (blobh : String) (blob : Bytes) (bfile : Option
 /-- envelope bytes as qmail-queue receives them, from the captured qmail_from / qmail_to calls -/
 def envReal (f : Bytes) (t : List Bytes) : Bytes := 70 :: f ++ [0] ++ (t.map (fun r => 84 :: r ++ [0])).flatten
 
+/-- the fault the harness injected into the first injectbounce() call of a Q case: the k-th open_read() / read() of a queue file -/
+structure QFault where
+  isRead : Bool
+  idx : Nat
+  fired : Bool
+  target : UInt8      -- 'b' bounce/<id>, 'm' mess/<id>, 'i' info/<id>
+  pos : Nat           -- bytes of that file delivered before the failing read
+def QFault.show (f : QFault) : String :=
+  s!"{if f.isRead then "read" else "open_read"}#{f.idx}-of-{String.singleton (Char.ofNat f.target.toNat)}-after-{f.pos}-bytes"
+def parseQFault (s : String) : Option (Option QFault) :=
+  if s == "-" then some none else
+  match s.splitOn ":" with
+  | [k, i, f, t, p] =>
+    match i.toNat?, b01 f, p.toNat? with
+    | some i, some f, some p => some (some { isRead := k == "r", idx := i, fired := f, target := (t.toList.headD '-').toNat.toUInt8, pos := p })
+    | _, _, _ => none
+  | _ => none
+
 /-- Q: the real qmail.c (qmail_open/qmail_put/qmail_from/qmail_to/qmail_close) between injectbounce() and a scripted queue
 program (exit code / death by signal).  `rec` = the queue program ran and recorded (message, envelope).  The notice is
 COMMITTED only if the queue program exited 0 without a signal.  Oracle: bounce/<id> removed / return 1 only if committed (or the
 documented discard / nothing failed); after a refused injection the retry (scripted 0,0) commits the notice; what the queue
 program was given is the notice (contains the bounce file, envelope as prescribed). -/
 def handleQ (o : Out) (blobh : String) (blob : Bytes) (bfile : Option Bytes) (ret left rec : Bool) (msg env : Bytes)
-    (ret2 left2 rec2 : Bool) (msg2 env2 : Bytes) (routes : List (Bool × Bytes)) : Out := Id.run do
+    (ret2 left2 rec2 : Bool) (msg2 env2 : Bytes) (routes : List (Bool × Bytes)) (qf : Option QFault) (log1 : Bytes) : Out := Id.run do
   let fs := splitNul blob
   let ctl := controlsOf fs
   let cfg := getcontrols ctl
   let sdb := specDoubleBounceTo ctl.doublebounceto ctl.doublebouncehost ctl.me
   let script := ((String.fromUTF8! ⟨(fld fs 8).toArray⟩).splitOn ",").map (·.toNat?)
   let (code, sig) : Nat × Nat := match script with
-    | [some c, some s] => (c, s)
+    | some c :: some s :: _ => (c, s)
     | _ => (0, 0)
   let okq := code == 0 && sig == 0
   let sender := fld fs 9
@@ -378,36 +422,70 @@ def handleQ (o : Out) (blobh : String) (blob : Bytes) (bfile : Option Bytes) (re
   let had := bfile.isSome
   let file := bfile.getD []
   let live := had && base != DBSENDER         -- a notice has to be sent
+  -- the injected fault (session 4): which copy loop of injectbounce() it hit
+  let fired : Option QFault := match qf with | some f => if f.fired then some f else none | none => none
+  let infoFault := match fired with | some f => f.target == 105 | none => false
+  let rfOf (t : UInt8) : BounceQq.RF := match fired with
+    | some f => if f.target == t then (if f.isRead then .readFail f.pos else .openFail) else .ok
+    | none => .ok
+  let fb := rfOf 98
+  let fm := rfOf 109
+  let copyFault := fb != .ok || fm != .ok
   let mut o := o
   o := { o with st := ((o.st.bump "kindQ").bump (if sig != 0 then "Q_killed_by_signal" else if code == 0 then "Q_exit_0" else "Q_exit_nonzero")) }
-  -- model: a queue program that does not end with exit 0 is a refusal by qmail_close
+  match qf with
+  | some f =>
+    o := { o with st := o.st.bump (if !f.fired then "Q_fault_index_beyond_last_call"
+      else s!"Q_fault_{if f.isRead then "read" else "open"}_{if f.target == 98 then "bounce" else if f.target == 109 then "mess" else if f.target == 105 then "info" else "other"}") }
+  | none => pure ()
+  -- model: a queue program that does not end with exit 0 is a refusal by qmail_close; a failed open/read is the fault point of `inject`
   let mb := if fails.isEmpty then none else some (bounceFile cfg.tables fails)
   if mb != bfile then o := o.dis s!"in={blobh} kind=Q what=bouncefile"
-  let r1 := inject cfg DATE ID0Q 0 (if okq then .none else .qqClose) sender mb mess
-  if r1.ret != ret || r1.bounce.isSome != left || (okq && (r1.queued.map (·.body)) != (if rec then some msg else none)) then
-    o := o.dis s!"in={blobh} kind=Q what=call1 impl=ret={ret} left={left} rec={rec} model=ret={r1.ret} left={r1.bounce.isSome} q={r1.queued.isSome}"
+  let mfault : Fault := if infoFault then .info else if copyFault then BounceQq.faultOf fb fm else if okq then .none else .qqClose
+  let r1 := inject cfg DATE ID0Q 0 mfault sender mb mess
+  -- model of the real qmail.c's two streams (Nq.BounceQq): what the queue program must have read
+  let qq := if live && !infoFault then BounceQq.injectQq cfg DATE sender file mess fb fm code (sig != 0) else none
+  if r1.ret != ret || r1.bounce.isSome != left || qq.isSome != rec
+     || (match qq with | some (q, acc) => q.msg != msg || q.env != env || acc != ret | none => false) then
+    o := o.dis s!"in={blobh} kind=Q what=call1 impl=ret={ret} left={left} rec={rec} env={hex env} model=ret={r1.ret} left={r1.bounce.isSome} q={r1.queued.isSome} qq-env={match qq with | some (q, _) => hex q.env | none => "none"} msg-equal={match qq with | some (q, _) => q.msg == msg | none => true}"
   let r2 := inject cfg DATE ID0Q 0 .none sender r1.bounce mess
   if r2.ret != ret2 || r2.bounce.isSome != left2 || r2.queued.isSome != rec2 then
     o := o.dis s!"in={blobh} kind=Q what=call2 impl=ret={ret2} left={left2} rec={rec2} model=ret={r2.ret} left={r2.bounce.isSome} q={r2.queued.isSome}"
   -- oracle
   if live then
+    -- the envelope the notice must go out with (spec side)
+    let (ef, et) : Bytes × Bytes := if base.isEmpty then (DBSENDER, sdb) else ([], base)
+    -- QUEUED: the queue program exited 0 un-killed having been given a terminated envelope; COMPLETE: every failure paragraph
+    -- (the whole bounce/<id>) inside, the original message at the end, the prescribed envelope (C14_inject_fault_accepted_complete)
+    let queued := rec && BounceQq.queuedOK code (sig != 0) env
+    let complete := BounceQq.completeOK ef et file mess msg env
+    o := { o with st := o.st.bump (if queued then (if complete then "Q_queued_complete" else "Q_queued_INCOMPLETE") else "Q_not_queued") }
+    if queued && !complete then
+      o := o.ora s!"in={blobh} kind=Q why=queued-notice-incomplete-after-failed-open-or-read-of-a-queue-file fault={match fired with | some f => f.show | none => "-"} env={hex env} notice-has-bounce-file={Daemon.isInfix file msg} notice-ends-with-message={BounceQq.isSuffixB mess msg}"
+    if !left && !(queued && complete) then
+      o := o.ora s!"in={blobh} kind=Q why=bounce-file-removed-without-a-complete-notice-accepted-by-the-queue-program exit={code} signal={sig} fault={match fired with | some f => f.show | none => "-"}"
     if !left && !okq then o := o.ora s!"in={blobh} kind=Q why=bounce-file-removed-although-the-queue-program-did-not-accept-the-notice exit={code} signal={sig}"
-    if ret && !okq then o := o.ora s!"in={blobh} kind=Q why=success-reported-although-the-queue-program-did-not-accept-the-notice exit={code} signal={sig}"
-    if !rec then o := o.ora s!"in={blobh} kind=Q why=queue-program-not-run"
+    if ret && !(okq && queued && complete) then o := o.ora s!"in={blobh} kind=Q why=success-reported-although-the-queue-program-did-not-accept-the-notice exit={code} signal={sig}"
+    if !rec && !infoFault then o := o.ora s!"in={blobh} kind=Q why=queue-program-not-run"
+    -- not queued: "will try later", the record stays (an unreadable info/<id> gives up silently before anything is opened)
+    if !queued && !(left && !ret) then o := o.ora s!"in={blobh} kind=Q why=record-not-kept-although-nothing-was-queued"
+    if !queued && rec && log1 != troubleLogQ then o := o.ora s!"in={blobh} kind=Q why=refused-injection-not-logged-as-will-try-later log={hex log1}"
     -- qmail_close() ends the envelope with one more NUL (qmail-queue's format): F sender NUL {T recipient NUL} NUL
-    if rec && !(env.getLast? == some 0 && injectGuard (dcfgQ sdb) sender file env.dropLast msg) then
+    if !copyFault && rec && !(env.getLast? == some 0 && injectGuard (dcfgQ sdb) sender file env.dropLast msg) then
       o := o.ora s!"in={blobh} kind=Q why=queue-program-was-not-given-the-notice env={hex env}"
-    if okq then
+    if okq && !copyFault && !infoFault then
       if rec2 then o := o.ora s!"in={blobh} kind=Q why=second-notice-after-success"
     else
-      if !(rec2 && ret2 && !left2) then o := o.ora s!"in={blobh} kind=Q why=notice-lost-after-refused-injection exit={code} signal={sig}"
-      else if !(env2.getLast? == some 0 && injectGuard (dcfgQ sdb) sender file env2.dropLast msg2) then
+      if !(rec2 && ret2 && !left2) then o := o.ora s!"in={blobh} kind=Q why=notice-lost-after-refused-injection exit={code} signal={sig} fault={match fired with | some f => f.show | none => "-"}"
+      else if !(env2.getLast? == some 0 && injectGuard (dcfgQ sdb) sender file env2.dropLast msg2 && BounceQq.completeOK ef et file mess msg2 env2) then
         o := o.ora s!"in={blobh} kind=Q why=retry-did-not-give-the-queue-program-the-notice env={hex env2}"
+      else o := { o with st := o.st.bump "Q_retry_complete" }
   else
     if rec || rec2 then o := o.ora s!"in={blobh} kind=Q why=notice-sent-although-nothing-to-bounce"
   return o
 where
   ID0Q : Nat := 4711
+  troubleLogQ : Bytes := str "warning: trouble injecting bounce message, will try later\n"
   dcfgQ (dbto : Bytes) : Daemon.Cfg := { conc := fun _ => 1, lifetime := 604800, route := fun a => (.loc, a), doublebounceto := dbto }
 
 /-! ### daemon level: replay through the monitor, oracle of C14_daemon_* on the implementation's output -/
@@ -610,11 +688,12 @@ def handle (chain : IO.Ref Chain) (st : Stats) (line : String) : IO Stats := do
         || (match domainPart stored with | some d => isLocal (readfile (fld fs 4)) d | none => false)
       finish o blob nontriv s!"kind=P in={blobh} flagstrip={flags} stored={storedh} stripped={sh} text={th}"
     | _, _, _, _, _ => bad
-  | ["D", blobh, ah] =>
+  | ["D", blobh, ah, ord, mk] =>
     match unhex blobh, unhex ah with
     | some blob, some a =>
       let o := handleD { st := st } blobh blob a
-      finish o blob (a != ABSENT) s!"kind=D in={blobh} appended={ah}"
+      let o := orderD o blobh blob a ord mk
+      finish o blob (a != ABSENT) s!"kind=D in={blobh} appended={ah} order={ord} mark={mk}"
     | _, _ => bad
   | ["I", ids, blobh, bfh, rets, qs, fh, ths, bodyh, lefts, logh, ret2s, q2s, f2h, t2hs, body2h, left2s, log2h, sizess, routess] =>
     match ids.toNat?, unhex blobh, unhex bfh, b01 rets, b01 qs, unhex fh, unhexList ths, unhex bodyh, parseRoutes routess with
@@ -643,15 +722,15 @@ def handle (chain : IO.Ref Chain) (st : Stats) (line : String) : IO Stats := do
         | none => bad
       | _, _, _, _, _, _, _ => bad
     | _, _, _, _, _, _, _, _, _ => bad
-  | ["Q", blobh, bfh, rets, lefts, recs, msgh, envh, ret2s, left2s, rec2s, msg2h, env2h, routess] =>
+  | ["Q", blobh, bfh, rets, lefts, recs, msgh, envh, ret2s, left2s, rec2s, msg2h, env2h, routess, qfs, log1h, _log2h] =>
     match unhex blobh, unhex bfh, b01 rets, b01 lefts, b01 recs, unhex msgh, unhex envh, parseRoutes routess with
     | some blob, some bf, some ret, some left, some rec, some msg, some env, some routes =>
-      match b01 ret2s, b01 left2s, b01 rec2s, unhex msg2h, unhex env2h with
-      | some ret2, some left2, some rec2, some msg2, some env2 =>
+      match b01 ret2s, b01 left2s, b01 rec2s, unhex msg2h, unhex env2h, parseQFault qfs, unhex log1h with
+      | some ret2, some left2, some rec2, some msg2, some env2, some qf, some log1 =>
         let bfile := if bfh == "-" then none else some bf
-        let o := handleQ { st := st } blobh blob bfile ret left rec msg env ret2 left2 rec2 msg2 env2 routes
-        finish o blob true s!"kind=Q in={blobh} ret={rets} left={lefts} rec={recs}"
-      | _, _, _, _, _ => bad
+        let o := handleQ { st := st } blobh blob bfile ret left rec msg env ret2 left2 rec2 msg2 env2 routes qf log1
+        finish o blob true s!"kind=Q in={blobh} ret={rets} left={lefts} rec={recs} fault={qfs}"
+      | _, _, _, _, _, _, _ => bad
     | _, _, _, _, _, _, _, _ => bad
   | ["X", kind, blobh] =>
     IO.println s!"ORACLE in={blobh} kind={kind} why=implementation-crashed-or-sanitizer-error-on-this-input"
